@@ -1,2 +1,3 @@
 LINK := full
 KITS := chainkit
+SCHED := 1
